@@ -1,6 +1,7 @@
 package obl
 
 import (
+	"os"
 	"fmt"
 	"go/constant"
 	"go/token"
@@ -58,6 +59,7 @@ type Config struct {
 
 // Analyzer runs the abstract interpretation.
 type Analyzer struct {
+	redef map[*Term]bool // merge terms (re)defined by the join in progress
 	cfg         Config
 	tt          *termTable
 	verdicts    map[string]*verdict
@@ -334,6 +336,9 @@ func (an *Analyzer) fieldOfValueIn(s *State, structTerm *Term, faddr *Term) cell
 // a store to B@o cannot touch B@o' for another object o', but may be seen through pointers of unknown
 // origin (B); a store through B may touch every B@*.
 func (an *Analyzer) kill(s *State, cls string, by string) {
+	if trace && os.Getenv("VERIF_OBL_TRACE") == "kills" {
+		fmt.Fprintf(os.Stderr, "   kill %s by %s\n", cls, by)
+	}
 	base := cls
 	qualified := false
 	if i := strings.Index(cls, "@"); i >= 0 {
